@@ -223,6 +223,12 @@ func (manager *Manager) registerConvergence(conv Convergence) {
 		}).Warn("Startup of CLA  failed, a retry should not be made")
 	} else {
 		manager.convs.Store(conv.Address(), ce)
+
+		// Close might have been called since Register checked the stop flag. Its shutdown has
+		// possibly not seen this CLA, which would be left running then.
+		if manager.isStopped() {
+			manager.unregisterConvergence(conv)
+		}
 	}
 }
 
